@@ -192,17 +192,11 @@ def json_encodable(v):
 
 def class_of_wrapper(fname, args, direct):
     """Known classes for a wrapper case; args are parsed values (receiver first)."""
-    base = fname.split(".")[-1]
-    if base in ("contains_rune", "index_rune") and len(args) == 2 and args[1][0] in ("s", "b", "U"):
-        if any(c >= 0x80 for c in args[1][1]):
-            return "rune-argument-not-ascii"
-    return None
+    return None   # every wrapper class found so far has been repaired (see the fixed lines of known_findings.jsonl)
 
 
 def classes_of_json(v):
     out = set()
-    if v[0] == "n":
-        out.add("json-top-level-nil")
     for x in walk(v):
         if x[0] == "i" and abs(x[1]) > 2 ** 53:
             out.add("json-int-above-2^53")
@@ -596,16 +590,6 @@ def ref_decode(codec, b):
     return ("unknown",)
 
 
-def base32_trailing_data(b):
-    """a well-formed base32 text whose last group is padded, followed by extra characters"""
-    s = bytes(c for c in b if c not in (13, 10))
-    for cut in range(8, len(s), 8):
-        head = s[:cut]
-        if head.endswith(b"=") and ref_decode("base32", head)[0] == "ok":
-            return True
-    return False
-
-
 def ref_encode(codec, b):
     if codec == "hex":
         return b.hex().encode()
@@ -933,9 +917,7 @@ def _body(res, quick, obs, model, records, proved, repo):
                 exp = out
                 if out.startswith("e:"):
                     exp = err_class(out, direct)
-                if klass == "rune-argument-not-ascii":
-                    pass  # the specification (one character) and the code (one byte) differ on these: known finding
-                elif direct == "-" and mo.get("dargs") != "-":
+                if direct == "-" and mo.get("dargs") != "-":
                     # the wrapper converts an argument the specification does not list (a wider domain):
                     # outside the property, there is no Go result to compare with
                     observations["wrapper_accepts_more_than_specified"] += 1
@@ -1022,8 +1004,7 @@ def _body(res, quick, obs, model, records, proved, repo):
                 if ref[0] == "bad":
                     stats["rejected"] += 1
                     if not dec.startswith("e:"):
-                        viol(cid, "malformed %s input accepted: decoded to %s" % (codec, dec[:200]),
-                             "base32-trailing-data-ignored" if codec == "base32" and base32_trailing_data(v[1]) else None)
+                        viol(cid, "malformed %s input accepted: decoded to %s" % (codec, dec[:200]))
                 elif ref[0] == "ok":
                     back = parse_one(dec)
                     if dec.startswith("e:"):
@@ -1045,7 +1026,7 @@ def _body(res, quick, obs, model, records, proved, repo):
                 continue
             kl = classes_of_json(v)
             if json_encodable(v):
-                agree_kl = sorted(kl & {"json-top-level-nil", "json-byte-slice"})
+                agree_kl = sorted(kl & {"json-byte-slice"})
                 if mar != enc:
                     viol(cid, "json.marshal and encode(_, \"json\") differ: %s vs %s" % (mar[:200], enc[:200]),
                          agree_kl[0] if agree_kl else None)
@@ -1120,7 +1101,8 @@ def _body(res, quick, obs, model, records, proved, repo):
                                      known_finding_cases={k: len(v) for k, v in known_hits.items()})
     cov["trusted_base"] = cov.get("trusted_base", []) + [
         "the Go standard library is a parameter F of the wrapper theorems and the law dec(enc b) = b of base64/base32/gzip/urlquery "
-        "is a hypothesis of C19_codec_inverse (tested on every run against Python's codecs); hex is proved in Gallina",
+        "(for base32 also: the encoder's output has length EncodedLen) is a hypothesis of C19_codec_inverse (tested on every run "
+        "against Python's codecs); hex is proved in Gallina",
         "harness/cmd/c19gen (go/ast) reads the wrapper shape out of the source; its records are re-validated on every run by "
         "executing them (extracted run_wrapper) against the implementation",
         "the specification table of harness/cmd/c19obs (function -> Go callee, argument kinds) and of Wrappers.expected_callee",
@@ -1138,7 +1120,8 @@ def _body(res, quick, obs, model, records, proved, repo):
     if set(irregular) - {"base64.decode", "base64.encode", "base64.url_decode", "base64.url_encode", "byte_slice.clone",
                          "byte_slice.contains", "byte_slice.equals", "bytes.clone", "bytes.contains", "bytes.equals",
                          "filepath.abs", "filepath.join", "filepath.split", "filepath.walk_dir", "math.abs", "math.ceil",
-                         "math.floor", "math.sum", "string.contains"}:
+                         "math.floor", "math.sum", "string.contains", "byte_slice.contains_rune", "byte_slice.index_rune",
+                         "bytes.contains_rune", "bytes.index_rune"}:
         res.notes.append("wrappers whose source no longer has the regular shape (differential run only): "
                          + ", ".join(sorted(set(irregular))))
 
